@@ -48,7 +48,7 @@ class TLCResult:
 
 _STATS = re.compile(r"^(\d+) states generated, (\d+) distinct states found")
 _DEPTH = re.compile(r"depth of the complete state graph search is (\d+)")
-_SIMSTAT = re.compile(r"(\d+) states checked")
+_SIMGEN = re.compile(r"^The number of states generated: (\d+)")
 
 
 def _decode_emit(line: str):
@@ -126,6 +126,9 @@ def run_tlc(
                 m = _STATS.match(line)
                 if m:
                     res.generated, res.distinct = int(m.group(1)), int(m.group(2))
+                m = _SIMGEN.match(line)
+                if m:
+                    res.generated = res.distinct = int(m.group(1))
                 m = _DEPTH.search(line)
                 if m:
                     res.depth = int(m.group(1))
